@@ -106,8 +106,9 @@ def run(ctx):
               "FLOW_MOD/packet/tick/sweep/stats alphabet; transition tours covering every "
               "transition of the abstract state graphs of six (quick) / ten (thorough) "
               "alphabets (thorough: a seeded sample of 9000 tours of each of the two largest "
-              "graphs); -simulate walks of depth 60) replayed on a real SoftwareSwitch through OFConnection bytes, table "
-              "+ messages + emitted ports compared after every step; plus seeded random "
+              "graphs); -simulate walks of depth 60) replayed on a real SoftwareSwitch through "
+              "OFConnection bytes, table + messages + emitted ports compared after every step; "
+              "plus seeded random "
               "histories of the real switch validated by TLC (TraceFlowTable).  distinct = "
               "distinct action/argument sequences; non-trivial = some step changes the table "
               "or produces a message")
